@@ -101,6 +101,14 @@ def swap_cases(rng, tier):
         cases.append(swap_case(x, y, a, rng.choice(rs), "directed-overflow"))
     for (x, y, a) in small_inputs():
         cases.append(swap_case(x, y, a, rng.choice([0, 1, 3 * 10 ** 15, D - 1, D]), "directed-small"))
+    # a tiny offer pool against a huge ask pool and offer: the spread a*y/x - gross is the one quantity of compute_swap that
+    # can need far more than 128 bits (up to ~2^196); powers of two put zeros into whole limbs of it
+    for x in (1, 2, 3, 4):
+        for ey in (64, 96, 100, 127):
+            for ea in (64, 96, 100, 127):
+                for da in (0, 1, 2, 3):
+                    if 2 ** ea + da < W128:
+                        cases.append(swap_case(x, 2 ** ey, 2 ** ea + da, rng.choice([0, 3 * 10 ** 15, D]), "directed-overflow"))
     g = grid128()
     for _ in range(100 * n):
         cases.append(swap_case(rng.choice(g), rng.choice(g), rng.choice(g), rng.choice(rs), "directed-grid"))
